@@ -19,6 +19,10 @@ var dirPool = []string{"d", "dir", "sub dir", "a", "b", "..d", "d..", "...", "æ—
 var suffixes = []string{".txt", "f2", "t", " ", ".gz", "Ã©.txt", "", "a", ".bin", "1", "xt", "/f1", "d/a", "/a.txt", "b/f2", "dir/f1", "/a"}
 
 func contentDesc(r *prng.R, big bool) string {
+	if !big && r.Chance(1, 150) {
+		// a large file that compresses extremely well (all zeros, or a short period): 1 MiB + 1 .. 6 MiB
+		return fmt.Sprintf("rep:%d:%d", prng.Pick(r, []int{1<<20 + 1, 2 << 20, 3<<20 + 17, 6 << 20}), prng.Pick(r, []int{0, 0, 1, 5}))
+	}
 	var n int
 	switch x := r.Intn(100); {
 	case x < 22:
